@@ -97,7 +97,7 @@ def run(ctx):
     # ------------------------------------------------------------------ conservative Resize
     n_resize = 0
     worst = 0.0
-    shapes = [(1, 1), (2, 3), (3, 5), (4, 4), (5, 7), (6, 4), (7, 3), (9, 8)] + [tuple(rng.randint(1, 9) for _ in range(2)) for _ in range(ctx.pick(24, 80))]
+    shapes = [(1, 1), (2, 3), (3, 5), (4, 4), (5, 7), (6, 4), (7, 3), (9, 8)] + [tuple(rng.randint(1, 9) for _ in range(2)) for _ in range(ctx.pick(24, 160))]
     for shape in shapes:
         down = list(itertools.product(range(1, shape[0] + 1), range(1, shape[1] + 1)))
         up = [(shape[0] * k1, shape[1] * k2) for k1, k2 in itertools.product((1, 2, 3), (1, 2, 4)) if (k1, k2) != (1, 1)]
@@ -129,7 +129,7 @@ def run(ctx):
                          {"op": "resize", "shape": shape, "target": tgt, "values": arr.ravel().tolist(), "trailing": trailing, "dtype": dtype.__name__})
             if as_image and not np.allclose(res.dimensions, img.dimensions, rtol=0, atol=0):
                 ctx.fail(f"C11:Resize(conservative,{kind}):dimensions-changed", f"{img.dimensions} -> {res.dimensions}", {"op": "resize", "shape": shape, "target": tgt})
-            if not trailing and len(lines) < ctx.pick(400, 2500):
+            if not trailing and len(lines) < ctx.pick(400, 5000):
                 corr("resize", f"resize {shape[0]} {shape[1]} {tgt[0]} {tgt[1]} {flist(arr.ravel().tolist())}", out, False)
     ctx.cov["resize"] = {"cases": n_resize, "max_relative_sum_error": worst, "tolerance": RTOL}
 
@@ -190,7 +190,7 @@ def run(ctx):
     for dim in (2, 3):
         names_c = "xyz"[:dim]
         mat = "ijk"[:dim]
-        for trial in range(ctx.pick(30, 200)):
+        for trial in range(ctx.pick(30, 500)):
             shape = tuple(rng.randint(1, 5) for _ in range(dim)) if trial else (3, 4, 5)[:dim]
             trailing, series, scalar = PAYLOADS[trial % len(PAYLOADS)]
             arr = dy_array(rng, shape + trailing)
@@ -269,7 +269,7 @@ def run(ctx):
     # ------------------------------------------------------------------ superposition
     n_sup = 0
     H = 0.5
-    for trial in range(ctx.pick(150, 1200)):
+    for trial in range(ctx.pick(150, 3000)):
         k = 1 + trial % 4
         shared = trial % 5 == 0
         series = trial % 3 == 0
@@ -342,7 +342,40 @@ def run(ctx):
 
 
 def replay(data):
+    """re-run one stored case on the implementation and print observed vs required values"""
+    import darsia as d
+
+    r = data.get("replay", data)
+    op = r.get("op")
+    print(f"property C11 op={op} signature={data.get('signature')}")
+    tr = tuple(r.get("trailing", ()))
+    if op == "resize":
+        arr = np.array(r["values"], dtype=r.get("dtype", "float64")).reshape(tuple(r["shape"]) + tr)
+        out = call(lambda: d.Resize(shape=tuple(r["target"]), interpolation="inter_area", **{"resize conservative": True})(arr.copy()))
+        print(f"sum before {arr.astype(float).sum(axis=(0, 1)).tolist()} after {out if isinstance(out, Raised) else out.astype(float).sum(axis=(0, 1)).tolist()} (required: equal within 1e-6 relative)")
+        return 0
+    if op == "refine":
+        shape = tuple(r["shape"])
+        arr = np.array(r["values"], dtype=float).reshape(shape + tr)
+        img = image(d, arr, len(shape), [0.5 * n for n in shape], len(tr) >= 1 and tr != (2,), not (tr == (2,) or len(tr) == 2))
+        out = call(d.uniform_refinement, img, r["level"])
+        i0 = integ(d, img)
+        print(f"shape {shape} levels {r['level']}: integral before {np.asarray(i0).tolist()} after {out if isinstance(out, Raised) else np.asarray(integ(d, out)).tolist()} (required: equal)")
+        return 0
+    if op in ("reduce", "extrude"):
+        shape = tuple(r["shape"])
+        arr = np.array(r["values"], dtype=float).reshape(shape + tr)
+        img = image(d, arr, len(shape), r["dims"], len(tr) >= 1 and tr != (2,), not (tr == (2,) or len(tr) == 2), r["origin"])
+        out = call(d.reduce_axis, img, r["axis"], mode=r["mode"]) if op == "reduce" else call(d.extrude_along_axis, img, r["height"], r["num"])
+        lo0, hi0 = box(img)
+        print(f"input box {lo0.tolist()}..{hi0.tolist()} dimensions {img.dimensions}")
+        if isinstance(out, Raised):
+            print("raised", out)
+        else:
+            lo1, hi1 = box(out)
+            print(f"output box {lo1.tolist()}..{hi1.tolist()} dimensions {out.dimensions} integral in {np.asarray(integ(d, img)).tolist()} out {np.asarray(integ(d, out)).tolist()}")
+        return 0
     import json
 
-    print(json.dumps(data.get("replay", data))[:2000])
+    print(json.dumps(r)[:2000])
     return 0
